@@ -61,7 +61,11 @@ pub enum Op {
     Ignore { doc: u8, sel: u8 },
     Record,
     Config { idx: u8 },
+    /// the user edits the user-dictionary file on disk (then every open document is re-checked)
+    EditUserDict { variant: u8 },
 }
+
+const DICT_VARIANTS: &[&str] = &["", "frobnix\n", "Frobnix\n", "FROBNIX\nqwertzu\n", "frobnix\nzorblaxy\nwibblet\n", "Wibblet\nzorblaxy", "qwertzu\n"];
 
 #[derive(Debug, Clone, Serialize, Deserialize, PartialEq, Eq, Hash)]
 pub struct History {
@@ -167,12 +171,13 @@ fn normalise(batch: &[Op], w: &World) -> Vec<Op> {
     let mut out: Vec<Op> = vec![];
     let mut used = [false; 4];
     for op in batch {
-        let global = matches!(op, Op::Config { .. } | Op::AddUser { .. } | Op::AddFile { .. });
+        let global = matches!(op, Op::Config { .. } | Op::AddUser { .. } | Op::AddFile { .. } | Op::EditUserDict { .. });
         if global {
             // only when it can stand alone
             let applicable = match op {
                 // open finding KF-C09-untitled: a configuration change cannot refresh an untitled buffer
                 Op::Config { .. } => !(0..DOCS.len()).any(|i| !DOCS[i].2 && w.docs[i].open),
+                Op::EditUserDict { .. } => true,
                 Op::AddUser { doc } | Op::AddFile { doc } => {
                     let i = *doc as usize % DOCS.len();
                     DOCS[i].2 && w.docs[i].open
@@ -234,7 +239,7 @@ fn exec_batch(w: &mut World, batch: &[Op], salt: u64, ctx: &mut CaseCtx) -> Resu
     let mut responses: Vec<i64> = vec![];
     // publications of ops that do not wait for a configuration answer
     let mut immediate_pubs = 0usize;
-    let single_global = batch.len() == 1 && matches!(batch[0], Op::Config { .. } | Op::AddUser { .. } | Op::AddFile { .. });
+    let single_global = batch.len() == 1 && matches!(batch[0], Op::Config { .. } | Op::AddUser { .. } | Op::AddFile { .. } | Op::EditUserDict { .. });
     // pre-pass (nothing of the batch is in flight yet): the lint JSON an editor would send with
     // HarperIgnoreLint comes from a code action
     let mut ignore_args: BTreeMap<usize, (Diag, Value)> = BTreeMap::new();
@@ -336,6 +341,20 @@ fn exec_batch(w: &mut World, batch: &[Op], salt: u64, ctx: &mut CaseCtx) -> Resu
                 let id = w.s.request("workspace/executeCommand", json!({"command": cmd, "arguments": [word, uris[i]]}))?;
                 responses.push(id);
                 expect_pubs[i] += 1;
+            }
+            Op::EditUserDict { variant } => {
+                let content = DICT_VARIANTS[*variant as usize % DICT_VARIANTS.len()];
+                let _ = std::fs::create_dir_all(w.sb.user_dict().parent().unwrap());
+                std::fs::write(w.sb.user_dict(), content).map_err(|e| LspError::Protocol(e.to_string()))?;
+                // every open document is re-checked (same text): auto-answer mode, one at a time
+                for i in 0..DOCS.len() {
+                    if w.docs[i].open {
+                        w.version += 1;
+                        let (uri, t, v) = (uris[i].clone(), w.docs[i].text.clone(), w.version);
+                        w.s.change(&uri, v, &t)?;
+                    }
+                }
+                ctx.class("user_dictionary_file_edited");
             }
             Op::Config { idx } => {
                 w.config_idx = *idx as usize % CONFIGS.len();
@@ -496,6 +515,7 @@ fn op() -> BoxedStrategy<Op> {
         1 => (0u8..4, any::<u8>()).prop_map(|(doc, sel)| Op::Ignore { doc, sel }),
         1 => Just(Op::Record),
         2 => any::<u8>().prop_map(|idx| Op::Config { idx }),
+        2 => any::<u8>().prop_map(|variant| Op::EditUserDict { variant }),
     ]
     .boxed()
 }
